@@ -82,6 +82,7 @@ class FnSpec:
         self.optional_anchor = False
         self.rlimit = None
         self.nodecreases = False
+        self.combs = []         # (method, opt|res, n): inline that std combinator call with a closure literal into a match
         self.same_as = None     # `file.fns/key`: this (lifted) word carries the contract of that function
         self.word = None        # lift the closure bound to this word name out of the word table `key`
 
@@ -157,6 +158,12 @@ def parse_fn_blocks(lines, origin):
                     if not m:
                         raise AssembleError('%s:%d bad //@sub' % (origin, i + 1))
                     (fs.subs if m.group(1) == 'sub' else fs.sigsubs).append((m.group(2), m.group(3).replace('\\n', '\n'), m.group(4).replace('\\n', '\n'), m.group(5)))
+                    cur = None
+                elif s.startswith('//@comb '):
+                    a = s.split()
+                    if len(a) < 3 or a[2] not in ('opt', 'res'):
+                        raise AssembleError('%s:%d bad //@comb (method opt|res [n])' % (origin, i + 1))
+                    fs.combs.append((a[1], a[2], int(a[3]) if len(a) > 3 else 1))
                     cur = None
                 elif s.startswith('//@entry'):
                     cur = []
@@ -427,6 +434,79 @@ def rule_R17(text, deltas):
     raise AssembleError('R17 does not apply (no `for X in (E).chunks(N) {`)')
 
 
+def rule_Rcomb(text, method, kind, n, deltas, where):
+    """Rcomb: the n-th `RECV.method(|P| BODY)` on an Option (`opt`) / Result (`res`) -> the `match` that std defines the
+    combinator as.  Refused when BODY contains `?` or `return` (they would leave the closure, not the function)."""
+    toks = code_tokens(text)
+    T = lambda j: text[toks[j][1]:toks[j][2]]
+    cnt = 0
+    for j in range(1, len(toks) - 3):
+        if T(j) == method and T(j - 1) == '.' and T(j + 1) == '(' and T(j + 2) == '|':
+            cnt += 1
+            if cnt != n:
+                continue
+            c = match_close(text, toks, j + 1)
+            if T(j + 3) == '|' and toks[j + 2][2] == toks[j + 3][1]:
+                pat, b0 = None, j + 4
+            else:
+                k = j + 3
+                while k < c and T(k) != '|':
+                    k += 1
+                pat, b0 = text[toks[j + 2][2]:toks[k][1]].strip(), k + 1
+            body = text[toks[b0][1]:toks[c][1]].strip()
+            bt = code_tokens(body)
+            if any(body[a:b] in ('?', 'return') for (_k, a, b) in bt):
+                raise AssembleError('%s: //@comb %s: closure body contains `?` or `return`' % (where, method))
+            # receiver: walk back over the postfix chain
+            r = j - 1          # the '.'
+            k = r - 1
+            while k >= 0:
+                t = T(k)
+                if t in (')', ']'):
+                    depth = 0
+                    while k >= 0:
+                        tt = T(k)
+                        if tt in (')', ']', '}'): depth += 1
+                        elif tt in ('(', '[', '{'):
+                            depth -= 1
+                            if depth == 0: break
+                        k -= 1
+                    k -= 1
+                    continue
+                if toks[k][0] in ('ident', 'num', 'str', 'char') or t in ('.', '::', '?', 'self', 'Self') or (t == ':' ):
+                    if toks[k][0] == 'ident' and t in ('return', 'let', 'in', 'match', 'if', 'else', 'mut', 'ref', 'break'):
+                        break
+                    k -= 1
+                    continue
+                break
+            start = toks[k + 1][1]
+            recv = text[start:toks[r][1]].strip()
+            if not recv:
+                raise AssembleError('%s: //@comb %s: no receiver found' % (where, method))
+            P = pat if pat is not None else None
+            table = {
+                ('map_err', 'res'): 'match %s { Ok(verif_v) => Ok(verif_v), Err(%s) => Err(%s) }',
+                ('and_then', 'opt'): 'match %s { Some(%s) => %s, None => None }',
+                ('and_then', 'res'): 'match %s { Ok(%s) => %s, Err(verif_e) => Err(verif_e) }',
+                ('map', 'opt'): 'match %s { Some(%s) => Some(%s), None => None }',
+                ('map', 'res'): 'match %s { Ok(%s) => Ok(%s), Err(verif_e) => Err(verif_e) }',
+            }
+            table0 = {
+                ('ok_or_else', 'opt'): 'match %s { Some(verif_v) => Ok(verif_v), None => Err(%s) }',
+                ('unwrap_or_else', 'opt'): 'match %s { Some(verif_v) => verif_v, None => %s }',
+            }
+            if (method, kind) in table and P is not None:
+                new = table[(method, kind)] % (recv, P, body)
+            elif (method, kind) in table0 and P is None:
+                new = table0[(method, kind)] % (recv, body)
+            else:
+                raise AssembleError('%s: //@comb %s %s: not a known combinator shape' % (where, method, kind))
+            end = toks[c][2]
+            deltas.append(dict(rule='Rcomb', original=text[start:end][:160], rewritten=(new[:160])))
+            return text[:start] + new + text[end:]
+    raise AssembleError('%s: //@comb %s: occurrence %d not found' % (where, method, n))
+
+
 def name_return(sig, binder):
     """`-> T` -> `-> (binder: T)`"""
     toks = code_tokens(sig)
@@ -646,6 +726,8 @@ def expand_fn(fs, assumed_override=False, notes=None):
             body = rule_R16(body, deltas)
         if 'R17' in fs.rules:
             body = rule_R17(body, deltas)
+        for (cm, ck, cn) in fs.combs:
+            body = rule_Rcomb(body, cm, ck, cn, deltas, where)
         for (rule, frm, to, cnt) in fs.subs:
             k = body.count(frm)
             if cnt == 'last' and k >= 1:
